@@ -3,6 +3,7 @@ from functools import wraps
 from typing import Any
 
 from pedantic.constants import F, ReturnType
+from pedantic.helper_methods import _Shown, _shown_args, _shown_kwargs
 
 
 def does_same_as_function(other_func: F) -> F:
@@ -28,8 +29,8 @@ def does_same_as_function(other_func: F) -> F:
             other = other_func(*args, **kwargs)
 
             if other != result:
-                raise AssertionError(f'Different outputs: Function "{decorated_func.__name__}" returns {result} and '
-                                     f'function "{other_func.__name__}" returns {other} for parameters {args} {kwargs}')
+                raise AssertionError(f'Different outputs: Function "{decorated_func.__name__}" returns {_Shown(result)} and '
+                                     f'function "{other_func.__name__}" returns {_Shown(other)} for parameters {_shown_args(args)} {_shown_kwargs(kwargs)}')
             return result
 
         @wraps(decorated_func)
@@ -42,8 +43,8 @@ def does_same_as_function(other_func: F) -> F:
                 other = other_func(*args, **kwargs)
 
             if other != result:
-                raise AssertionError(f'Different outputs: Function "{decorated_func.__name__}" returns {result} and '
-                                     f'function "{other_func.__name__}" returns {other} for parameters {args} {kwargs}')
+                raise AssertionError(f'Different outputs: Function "{decorated_func.__name__}" returns {_Shown(result)} and '
+                                     f'function "{other_func.__name__}" returns {_Shown(other)} for parameters {_shown_args(args)} {_shown_kwargs(kwargs)}')
             return result
 
         if inspect.iscoroutinefunction(decorated_func):
